@@ -70,6 +70,38 @@ fn check_iteration(ont: &Ontology, added: &BTreeMap<u32, String>) -> V {
     if a != c || b != c {
         return Some(("Ontology::hpos".into(), "hpos() / &ontology / iter() disagree".into(), String::new()));
     }
+    // a partly consumed iterator: what is left agrees with len() as well (count, size_hint, last, nth)
+    let len = ont.len();
+    let cuts: Vec<usize> = if len <= 40 { (0..=len + 1).collect() } else { vec![0, 1, 2, len / 2, len - 1, len, len + 1] };
+    for k in cuts {
+        let mut it = ont.iter();
+        let mut taken = 0;
+        for _ in 0..k {
+            if it.next().is_some() {
+                taken += 1;
+            }
+        }
+        let left = len - taken;
+        let (lo, hi) = it.size_hint();
+        if lo > left || hi.map_or(false, |h| h < left) {
+            return Some(("Ontology::iter".into(), "size_hint of a partly consumed iterator excludes the number of terms left".into(), format!("after {taken} of {len}: size_hint ({lo}, {hi:?})")));
+        }
+        let counted = it.count();
+        if counted != left {
+            return Some(("Ontology::iter".into(), "count() of a partly consumed iterator is not the number of terms left".into(), format!("after {taken} of {len}: count() = {counted}")));
+        }
+        let skipped = ont.hpos().skip(k).count();
+        if skipped != len.saturating_sub(k) {
+            return Some(("Ontology::hpos".into(), "skip(k).count() is not len() - k".into(), format!("k = {k}, len = {len}: {skipped}")));
+        }
+        let nth = ont.iter().nth(k).map(|t| t.id().as_u32());
+        if nth != c.get(k).copied() {
+            return Some(("Ontology::iter".into(), "nth(k) is not the k-th term of the iteration".into(), format!("k = {k}: {nth:?} vs {:?}", c.get(k))));
+        }
+    }
+    if ont.iter().last().map(|t| t.id().as_u32()) != c.last().copied() {
+        return Some(("Ontology::iter".into(), "last() is not the last term of the iteration".into(), String::new()));
+    }
     None
 }
 
